@@ -238,7 +238,9 @@ pub fn build_table_from_data(
             max_symbol = idx;
         }
     }
-    build_table_from_counts(&counts[..=max_symbol], max_log, avoid_0_numbit)
+    // Always describe at least two symbols: a table for a single symbol has no second
+    // entry that could take over the probability removed by `avoid_0_numbit`.
+    build_table_from_counts(&counts[..=max_symbol.max(1)], max_log, avoid_0_numbit)
 }
 
 fn build_table_from_counts(counts: &[usize], max_log: u8, avoid_0_numbit: bool) -> FSETable {
